@@ -59,7 +59,9 @@ type Op struct {
 	// (default 1) by the same handler running without a tracer, 1: directly before
 	// the traced run, 2: directly after it. A plain line and a trace are never
 	// identical lines, whatever their text.
+	// Fm: bit k set = collected line k uses the Printf-style method (Warningf …).
 	Sevs    []int `json:"sv,omitempty"`
+	Fm      int   `json:"fm,omitempty"`
 	Echo    int   `json:"e,omitempty"`
 	EchoRep int   `json:"er,omitempty"`
 	// OpPkg: package name -> level ("pkga", "pkgb", or an unrelated name).
@@ -215,7 +217,7 @@ func (e *Expander) Expand(op Op) []Event {
 	case OpTracer:
 		ev := Event{Kind: OpTracer, Pkg: pkgName(op.Pkg)}
 		for k, s := range op.Sevs {
-			ev.Trace = append(ev.Trace, Line{Text: TraceText(e.G, e.next, k), Sev: wrapSev(s), Pkg: ev.Pkg})
+			ev.Trace = append(ev.Trace, Line{Text: TraceText(e.G, e.next, k), Sev: wrapSev(s), Pkg: ev.Pkg, F: op.Fm>>uint(k)&1 == 1})
 		}
 		e.next++
 		rep := op.EchoRep
